@@ -32,7 +32,7 @@ type c15Case struct {
 func runC15Stress(c *Ctx) {
 	r := c.R
 	r.Rule = "free-running episodes: writers (Set/SetWithTTL/Del/Get) are joined with the write buffer left as it is (new items, updates, tombstones, Wait markers of helper goroutines still queued), then Clear runs with delays at its three internal points; post-conditions (empty snapshot, RemainingCost == MaxCost, metrics zero, nothing enumerated, waiters released, new write served); second phase, then Close with its post-conditions and the goroutine profile; life-cycle automaton over the merged log; distinct by (configuration class, what was queued at Clear/Close: new/update/tombstone/marker counts capped)"
-	n := c.N(60, 900)
+	n := c.N(60, 480)
 	for i := 0; i < n; i++ {
 		if i%c.NParts != c.Part {
 			continue
